@@ -288,8 +288,8 @@ impl Property for C10 {
     }
     fn cases(&self, tier: Tier) -> u64 {
         match tier {
-            Tier::Quick => 16_000,
-            Tier::Thorough => 100_000,
+            Tier::Quick => 100_000,
+            Tier::Thorough => 600_000,
         }
     }
     fn required_labels(&self, _tier: Tier) -> Vec<&'static str> {
